@@ -108,7 +108,9 @@ def run_case(case):
         scales.append(scale)
         v = gen.haar_unitary(rng, dd) if i % 3 == 1 else np.eye(dd)
         oper = v @ np.diag(o) @ v.conj().T
-        phys.c = base_c[0] * max(scales)
+        phys.c = base_c[0] * max(scales) * (
+            lib.pt_growth(nsteps) if entry in ("pt", "meanfield_pt", "tebd")
+            else 1.0)
         return (oper + oper.conj().T) / 2, r
 
     params = lib.tempo_params(dt, epsrel, kmax, tau)
@@ -183,7 +185,7 @@ def run_case(case):
         teps = float(rng.choice([1e-6, 1e-7, 1e-8]))
         phys.epsrel = max(epsrel, teps)
         # truncation of the chain MPS: errors accumulate over bonds and steps
-        phys.c = 100.0 * n * max(scales)
+        phys.c = 100.0 * n * max(scales) * lib.pt_growth(nsteps)
         record = list(range(n)) + [(0, 1), (0, n - 1)]
         oqupy.PtTebd(oqupy.AugmentedMPS(rhos), chain, pts,
                      oqupy.PtTebdParameters(dt=dt, epsrel=teps,
